@@ -291,6 +291,7 @@ def r_premises_shared(ctx):
     from analysis.runner import premise
     premise(ctx, 'C01', ['C01.R1', 'C01.R2', 'C01.R3', 'C01.R5'] and set(['C01.R1', 'C01.R2', 'C01.R3', 'C01.R5']), 'state() decides mate / stalemate from the generated move list; the list is no longer exactly the legal moves')
     premise(ctx, 'C04', ['C04.R2'] and set(['C04.R2']), 'the incremental hash is part of the incrementally maintained state; a mutation is no longer paired with its key')
+    premise(ctx, 'C02', {'C02.R3'}, "state() reports the fifty-move draw from the half-move clock; make-move no longer maintains the clocks as the rules prescribe")
     premise(ctx, 'C05', ['C05.R4'] and set(['C05.R4']), 'the castling field of the text form no longer names the rights the board holds')
 
 
